@@ -369,6 +369,10 @@ static int probe_catch(struct uprobe *uprobe, struct upipe *upipe, int event, va
         if (upipe == self->ptr) { self->alive = false; self->last = upipe; self->ptr = NULL; }
         return UBASE_ERR_NONE;
     }
+    /* a reaction to 'ready' may already configure the pipe (the event says it accepts control commands): the
+     * handle is known by its name from now on, although the allocation has not returned yet */
+    if (event == UPROBE_READY && self->ptr == (struct upipe *)-1 && self->upipe == NULL)
+        self->upipe = upipe;
     {
         char nn[48];
         snprintf(nn, sizeof(nn), "%s", n);       /* n may live in a buffer the reaction reuses */
